@@ -36,6 +36,29 @@ def scan_value_stores(tier, seed):
             # setattr(PreferredUnits, attribute, ...) in PreferredUnits.set targets the settings class, never a quantity
             ok = rel == 'py_ballisticcalc/unit.py' and q == 'PreferredUnits.set' and src.startswith('setattr(PreferredUnits,')
             obls.append(obl(f'scan::reflection@{rel}:{q}:L{line}', ok, f'{src} in {q}', line=line))
+    # the constructor is the one place that writes a magnitude: it must never be run on an object that already exists
+    # (x.__init__(...) re-initialises x in place); super().__init__(...) inside a constructor is construction
+    import ast
+    from pyvc.scan import walk_package
+
+    def on(rel, q, n):
+        if isinstance(n, ast.Call) and isinstance(n.func, ast.Attribute) and n.func.attr in ('__init__', '__setstate__'):
+            base = n.func.value
+            is_super = isinstance(base, ast.Call) and isinstance(base.func, ast.Name) and base.func.id == 'super'
+            ok = is_super and q.split('.')[-1] == '__init__'
+            obls.append(obl(f'scan::re-initialisation@{rel}:{q}:L{n.lineno}', ok,
+                            f'{ast.unparse(n)[:80]} in {q}: a constructor is called only to construct (super().__init__ inside '
+                            f'__init__), never on an existing object', line=n.lineno))
+        # writes through the attribute dictionary (reads, as in _validate_unit_type, are harmless)
+        dict_write = (isinstance(n, ast.Subscript) and isinstance(n.ctx, (ast.Store, ast.Del)) and
+                      isinstance(n.value, ast.Attribute) and n.value.attr == '__dict__') or \
+                     (isinstance(n, ast.Call) and isinstance(n.func, ast.Attribute) and
+                      n.func.attr in ('update', 'pop', 'clear', 'setdefault', '__setitem__', 'popitem') and
+                      isinstance(n.func.value, ast.Attribute) and n.func.value.attr == '__dict__')
+        if dict_write:
+            obls.append(obl(f'scan::dict-write@{rel}:{q}:L{n.lineno}', False,
+                            f'{ast.unparse(n)[:80]} in {q}: attribute dictionaries are not written directly', line=n.lineno))
+    walk_package(on)
     if not obls:
         obls.append(obl('scan::no-store-found', False, 'the scan found no store to _value at all (scan broken?)'))
     return result('scan:stores-to-_value', obls, t0, props=('C13',))
